@@ -18,7 +18,12 @@ def sh(cmd, cwd=None, env=None, timeout=1800):
     return p.returncode, p.stdout
 
 
+SCRATCH = '/tmp/verif_eval'
+
+
 def main():
+    os.makedirs(SCRATCH, exist_ok=True)
+    sh('rsync -a --delete --exclude cases %s/coq/ %s/coq/' % (VERIF, SCRATCH))
     args = [a for a in sys.argv[1:] if not a.startswith('--')]
     inplace = '--inplace' in sys.argv
     confirm = '--noconfirm' not in sys.argv
@@ -51,6 +56,7 @@ def main():
             e2 = dict(os.environ)
             if not inplace:
                 e2['USIM_REPO'] = tree
+                e2['VERIF_SCRATCH'] = SCRATCH
             rcc, outc = sh('./check %s --tier quick' % prop, cwd=VERIF, env=e2, timeout=3000)
             r['check_rc'] = rcc
             r['check_s'] = round(time.time() - t0, 1)
